@@ -75,4 +75,42 @@ pub(crate) fn stub_format(_: std::fmt::Arguments<'_>) -> String {
 pub(crate) fn stub_backtrace_capture() -> std::backtrace::Backtrace {
     std::backtrace::Backtrace::disabled()
 }
+
+/// 10^n for n <= 38 (spec helper).
+pub(crate) const POW10: [i128; 39] = {
+    let mut t = [1i128; 39];
+    let mut i = 1;
+    while i < 39 {
+        t[i] = t[i - 1] * 10;
+        i += 1;
+    }
+    t
+};
+
+/// Cheap stand-in for `DbError::new` on error paths whose *content* is irrelevant to the contract (only "an error was
+/// reported" is).  The real constructor allocates a String, a Box with a `dyn Error` slot and captures a backtrace;
+/// its construction and drop glue dominate CBMC time.  The value returned here must never be dropped or inspected:
+/// harnesses `mem::forget` every `Result` they get back.  Listed in `trusted_base` of every unit that uses it.
+pub(crate) fn stub_dberror_new(msg: impl Into<String>) -> glaredb_error::DbError {
+    std::mem::forget(msg);
+    // a DbError is one Box pointer; a dangling, aligned, non-null pointer that is never dereferenced
+    unsafe { std::mem::transmute::<usize, glaredb_error::DbError>(16usize) }
+}
+
+/// The CONTRACT of `DecimalType::validate_precision`, proved against the real function by
+/// `c13c15_validate_precision_{d64,d128}__def` / `__min_no_trap` (arrays/scalar/decimal.rs hook):
+///     Ok  <=>  precision <= MAX_PRECISION  &&  |value| < 10^precision.
+/// Callers (cast kernels) are verified against this contract instead of the body -- the modular step.
+pub(crate) trait VpContract: crate::arrays::scalar::decimal::DecimalType {
+    fn validate_precision_contract(value: Self::Primitive, precision: u8) -> glaredb_error::Result<()> {
+        let v: i128 = num_traits::ToPrimitive::to_i128(&value).unwrap();
+        if precision <= Self::MAX_PRECISION && v.unsigned_abs() < POW10[precision as usize] as u128 {
+            Ok(())
+        } else {
+            Err(stub_dberror_new(""))
+        }
+    }
+}
+impl<D: crate::arrays::scalar::decimal::DecimalType> VpContract for D {}
+
 include!("/verif/build/kani-gen/core_root.playback.rs");
